@@ -634,10 +634,35 @@ def _native_re(fn, *a, **k):
         raise I.PyRaise(type(e), e.args)
 
 
+class OpaqueMatch:
+    """A match object about which nothing is known (only its truthiness is used)."""
+
+    def group(self, *a):
+        # an unknown captured text; the only use in the code base is int(group) for logging
+        from .strings import XStr
+        import itertools
+        OpaqueMatch._n = getattr(OpaqueMatch, '_n', 0) + 1
+        return XStr.atom(f'opaque_group{OpaqueMatch._n}', only='0123456789', minlen=1)
+
+
+def _abs_line_match(it, kind, pattern, line):
+    """re.fullmatch / re.match on an abstract line: decided for the blank-line pattern, otherwise an
+    unknown outcome (a fresh Boolean)."""
+    from . import ext as _ext
+    if kind == 'fullmatch' and pattern == r'[ \t\r\n]+':
+        c = mk_bool(line.kind() == _ext.LINE_BLANK)
+    else:
+        c = mk_bool(it.ctx.fresh_bool('re_unknown'))
+    return OpaqueMatch() if it.ctx.decide(c) else None
+
+
 @model(re.match)
 def _re_match(it, pattern, string, flags=0):
     from . import xregex
+    from . import ext as _ext
     pattern = _pat(it, pattern)
+    if isinstance(string, _ext.AbsLine):
+        return _abs_line_match(it, 'match', pattern, string)
     if isinstance(string, str):
         return _native_re(re.match, pattern, string, flags)
     return _xcheck(it, 'match', re.match, pattern, string, int(flags),
@@ -647,7 +672,12 @@ def _re_match(it, pattern, string, flags=0):
 @model(re.fullmatch)
 def _re_fullmatch(it, pattern, string, flags=0):
     from . import xregex
+    from . import ext as _ext
     pattern = _pat(it, pattern)
+    if isinstance(string, (_ext.AbsLine, _ext.SDecoded)):
+        if isinstance(string, _ext.SDecoded):
+            return OpaqueMatch() if it.ctx.decide(mk_bool(it.ctx.fresh_bool('re_unknown'))) else None
+        return _abs_line_match(it, 'fullmatch', pattern, string)
     if isinstance(string, str):
         return _native_re(re.fullmatch, pattern, string, flags)
     return _xcheck(it, 'fullmatch', re.fullmatch, pattern, string, int(flags),
